@@ -45,7 +45,7 @@ ASSUMPTIONS = [
 ]
 TECHNIQUE = 'Hypothesis recursive JSON + guided structural walk (reference reconstruction)'
 BUDGET = {'quick': dict(examples=4000, shards=8, max_seconds=50),
-          'thorough': dict(examples=64000, shards=16, max_seconds=540)}
+          'thorough': dict(examples=64000, shards=16, max_seconds=1800)}
 
 NAMES = ['T', 'Hello', '', 'a', 'my_import', 'T2']
 KEYS = ['a', 'b', 'c', 'ab', 'T', 'T2', 'Hello', '', '\xe9', '\u6f22\u5b57', 'a b', 'A', 'id', 'a_b', '_', 'b_']
